@@ -233,6 +233,11 @@ func sessionHandler(config Config) func(operations.SessionParams, interface{}) m
 			return operations.NewSessionUnauthorized().WithPayload("Token Missing Required Claims")
 		}
 
+		// iat and nbf are copied into the connection token below, so they must be present
+		if claims.IssuedAt == nil || claims.NotBefore == nil {
+			return operations.NewSessionUnauthorized().WithPayload("Token Missing Required Claims")
+		}
+
 		if params.SessionID == "" {
 			return operations.NewSessionUnauthorized().WithPayload("Path Missing SessionID")
 		}
@@ -468,6 +473,7 @@ func claimsCheck(principal interface{}) (*permission.Token, error) {
 
 	if len(claims.Scopes) == 0 ||
 		len(claims.RegisteredClaims.Audience) == 0 ||
+		claims.RegisteredClaims.ExpiresAt == nil ||
 		(*claims.RegisteredClaims.ExpiresAt).IsZero() {
 		return nil, errors.New("Token Missing Required Claims")
 	}
